@@ -397,6 +397,19 @@ pub fn run_c05(tier: Tier) -> ! {
             cfgs.push((format!("app list switched while offline TS{ts} HSA{hsa} apps{apps}"), cfg, tier.pick(9, 12), tier.pick(120.0, 3000.0), tier.pick(400_000, 2_000_000)));
         }
     }
+    // other baud rates: the TS-3 worlds (in the ring, without applications and with the live list) once more at
+    // 9600 baud, 1.5 and 12 Mbit/s at the minimum slot time of the rate
+    {
+        let base: Vec<_> = cfgs.iter().filter(|(l, c, ..)| c.ts == 3 && l.contains("sit2") && c.apps <= 1 && !l.contains("bursts")).cloned().collect();
+        for (label, cfg, depth, secs, cap) in base {
+            for baud in [0usize, 3, 4] {
+                let mut c = cfg.clone();
+                c.baud = baud;
+                c.slot_bits = c.slot_bits.max(crate::w2::MIN_SLOT[baud]);
+                cfgs.push((format!("{label} baud#{baud}"), c, depth, secs, cap));
+            }
+        }
+    }
     w2_explore(cfgs, &mut t);
     // (iii) DP master in direct drive, 0..3 peripherals
     let mut plans = vec![];
